@@ -42,25 +42,30 @@ theorem C01_tag_bound (env : Env) (name bind : String) (rest : List String) (ks 
     transformTag env (.mk .ident (name :: bind :: rest) ks) st = (nIdent name bind, st) := by
   simp [transformTag, h1, h2, h3, h4, FRAGMENT]
 
-/-- A member tag (`<a.b.C>`) is passed through as the member expression. -/
+/-- A member tag (`<a.b.C>`) is passed as the member expression `a.b.C` (a plain expression, no JSX node). -/
 theorem C01_tag_member (env : Env) (as : List String) (ks : List Node) (st : St) :
-    transformTag env (.mk .jsxMember as ks) st = (.mk .jsxMember as ks, st) := by
+    transformTag env (.mk .jsxMember as ks) st = (jsxMemberToExpr (.mk .jsxMember as ks), st) := by
   simp [transformTag]
+
+theorem C01_tag_member_shape (as oas pas : List String) (n b : String) (oks pks : List Node) (hn : n ≠ "this") :
+    jsxMemberToExpr (.mk .jsxMember as [.mk .ident (n :: b :: oas) oks, .mk .ident pas pks])
+      = .mk .member [] [.mk .ident (n :: b :: oas) [], .mk .ident pas pks] := by
+  simp [jsxMemberToExpr, hn]
 
 /-! ### attribute values -/
 
 /-- A value-less attribute is `true`. -/
-theorem C01_valueless_true (st : St) : attrValueExpr nNone st = (nBool true, st) := by
+theorem C01_valueless_true (st : St) : attrValueExpr nNone none st = (nBool true, st) := by
   simp [attrValueExpr, nNone]
 
 /-- A string value is whitespace-normalised by the JSX text rule (the same `cleanText` as C02). -/
 theorem C01_string_value_cleaned (s : String) (as : List String) (ks : List Node) (st : St) :
-    attrValueExpr (.mk .str (s :: as) ks) st = (nStr (String.ofList (cleanText s.toList)), st) := by
+    attrValueExpr (.mk .str (s :: as) ks) none st = (nStr (String.ofList (cleanText s.toList)), st) := by
   simp [attrValueExpr]
 
 /-- An expression value is passed unchanged. -/
 theorem C01_expr_value (e : Node) (as : List String) (st : St) :
-    attrValueExpr (.mk .jsxExprContainer as [e]) st = (e, st) := by
+    attrValueExpr (.mk .jsxExprContainer as [e]) none st = (e, st) := by
   simp [attrValueExpr]
 
 /-! ### spreads and mergeProps -/
@@ -69,8 +74,8 @@ theorem C01_expr_value (e : Node) (as : List String) (st : St) :
     (plain last-wins object semantics). -/
 theorem C01_spread_plain (o : Opts) (isComp : Bool) (e : Node) (as : List String) (acc : AttrAcc) (st : St)
     (hm : o.mergeProps = false) (he : ∀ a k, e ≠ .mk .object a k) :
-    (attrStep o isComp (.mk .spreadElement as [e]) acc st).1.props = acc.props ++ [nSpreadElement e]
-    ∧ (attrStep o isComp (.mk .spreadElement as [e]) acc st).1.mergeArgs = acc.mergeArgs := by
+    (attrStep o isComp (.mk .spreadElement as [e]) none acc st).1.props = acc.props ++ [nSpreadElement e]
+    ∧ (attrStep o isComp (.mk .spreadElement as [e]) none acc st).1.mergeArgs = acc.mergeArgs := by
   unfold attrStep
   simp [hm]
   split
@@ -80,8 +85,8 @@ theorem C01_spread_plain (o : Opts) (isComp : Bool) (e : Node) (as : List String
 /-- With mergeProps on, a spread closes the pending run (deduplicated) and becomes its own mergeProps layer. -/
 theorem C01_spread_merge (o : Opts) (isComp : Bool) (e : Node) (as : List String) (acc : AttrAcc) (st : St)
     (hm : o.mergeProps = true) (he : ∀ a k, e ≠ .mk .object a k) (hp : acc.props ≠ []) :
-    (attrStep o isComp (.mk .spreadElement as [e]) acc st).1.props = []
-    ∧ (attrStep o isComp (.mk .spreadElement as [e]) acc st).1.mergeArgs
+    (attrStep o isComp (.mk .spreadElement as [e]) none acc st).1.props = []
+    ∧ (attrStep o isComp (.mk .spreadElement as [e]) none acc st).1.mergeArgs
         = acc.mergeArgs ++ [nObject (dedupeProps acc.props), e] := by
   unfold attrStep
   have hp' : acc.props.isEmpty = false := by cases h : acc.props <;> simp_all
@@ -91,8 +96,8 @@ theorem C01_spread_merge (o : Opts) (isComp : Bool) (e : Node) (as : List String
   · simp
 
 /-- No attributes at all: props are `null`. -/
-theorem C01_no_attrs (o : Opts) (isComp : Bool) (st : St) :
-    (transformAttrs o [] isComp st).1.attrs = nNull := by
+theorem C01_no_attrs (o : Opts) (env : Env) (isComp : Bool) (st : St) :
+    (transformAttrs o env [] isComp st).1.attrs = nNull := by
   simp [transformAttrs]
 
 /-- Two or more mergeProps layers are combined by ONE call of Vue's `mergeProps`, in source order. -/
